@@ -55,8 +55,27 @@ def var_of(p):
     return "_".join(p).upper()
 
 
+def plant_collision(rng, t):
+    """add a sibling whose name joins two nested keys: {k1: {k2: ..}} gets k1_k2 next to k1 (at any depth)"""
+    spots = []
+
+    def walk(d):
+        for k1, v in d.items():
+            if isinstance(v, dict):
+                for k2, w in v.items():
+                    if not isinstance(w, dict) and (k1 + "_" + k2) not in d:
+                        spots.append((d, k1 + "_" + k2))
+                walk(v)
+    walk(t)
+    if spots:
+        d, k = rng.choice(spots)
+        d[k] = rng.choices(LEAVES, LEAFW)[0]
+
+
 def gen_case(rng):
     t = gen_tree(rng)
+    if rng.random() < 0.08:
+        plant_collision(rng, t)
     lv = list(leaves(t))
     pre = rng.choice(["invoke", "invoke", "myapp", "my_app", "x"])
     how = "default" if pre == "invoke" else rng.choice(["prefix", "env_prefix"])
@@ -293,7 +312,11 @@ def aux_impl(c):
             return "err:ValueError"
     if c["kind"] == "upper":
         return "ok " + enc_chars(c["s"].upper())
-    from invoke.env import Environment
+    try:
+        from invoke.env import Environment
+        Environment(config={}, prefix="")
+    except Exception:  # noqa  (private module reorganised: nothing to compare against)
+        return None
     if c["kind"] == "cast":
         fn = getattr(Environment(config={}, prefix=""), "_cast", None)
         if fn is None:
@@ -323,7 +346,7 @@ def run(ctx):
     out = Outcome()
     rng = ctx.rng
     drv = LeanDriver("drv_env")
-    cases = [gen_case(rng) for _ in range(ctx.n(6000, 120000))]
+    cases = [gen_case(rng) for _ in range(ctx.n(12000, 150000))]
     # design-time witnesses
     cases += [
         {"kind": "load", "tree": tag({"foo": {"bar": 1}, "foo_bar": 2}), "prefix": "invoke", "how": "default", "env": {}},
